@@ -36,7 +36,7 @@ if os.environ.get("MUT_PINNED"):
 env["VERIF_REPO"] = d
 for pid in props.split(","):
     r = subprocess.run(["/verif/check", pid, tier], env=env, capture_output=True, text=True)
-    lines = [l for l in r.stdout.splitlines() if l.startswith(("VIOLATION", "INCONCLUSIVE", "KNOWN"))]
+    lines = [l for l in r.stdout.splitlines() if l.startswith(("VIOLATION", "INCONCLUSIVE"))]
     print("MUT %s: %s %s -> exit %d %s" % (name, pid, tier, r.returncode, ("| " + lines[0][:230]) if lines else ""))
 shutil.rmtree(d, ignore_errors=True)
 tag = __import__("hashlib").sha1(d.encode()).hexdigest()[:8]
